@@ -419,6 +419,34 @@ def best_buffer_capacity(prog, res):
     res.need(R, 3)
 
 
+def worker_scratch_is_private(prog, res):
+    """T1: the optimiser's pool jobs share one const context per `d`.  What a job WRITES while selecting segments - the
+    frequency copy and the active-segment counters handed to FASTCOVER_buildDictionary / the activeDmers map and freqs of
+    COVER_buildDictionary - must be allocated by the job itself: the corresponding arguments in the worker entry points are
+    locals defined by an allocation in that function, never something reached through the shared context."""
+    R = "T1.worker-scratch-private"
+    n = 0
+    for worker, builder, pos in (("FASTCOVER_tryParameters", "FASTCOVER_buildDictionary", (1, 5)), ("COVER_tryParameters", "COVER_buildDictionary", (1, 2))):
+        f = prog.fn(worker)
+        for b, i, c in f.calls(builder):
+            for k in pos:
+                if k >= len(c.get("a", [])):
+                    continue
+                n += 1
+                a = strip_casts(f.resolve_x(c["a"][k]))
+                ok = False
+                if a is not None and a.get("k") == "ref" and a.get("rk") in ("l", "sl"):
+                    d = f.single_def(a["n"])
+                    ok = d is not None and any(is_call(y, ("malloc", "calloc")) for y in f.walk_resolved(d))
+                elif a is not None and a.get("k") == "un" and a.get("op") == "&":
+                    t = strip_casts(a["e"])
+                    ok = t.get("k") == "ref" and t.get("rk") in ("l", "sl")      # address of a job-local object
+                res.check(ok, R, "%s:arg%d" % (worker, k), "%s:%s" % (f.file, c.get("l")), "scratch argument %d of %s is allocated by the job" % (k, builder),
+                          "%s hands %s a scratch array that is not its own allocation (argument %d): all jobs of the optimiser then count in the same "
+                          "array without a lock - a data race, and the dictionary depends on the schedule" % (worker, builder, k))
+    res.need(R, 4)
+
+
 def run(tier):
     res = Result("C18", tier)
     tus, info = extract(["dictBuilder", "compress", "common"])
@@ -433,6 +461,7 @@ def run(tier):
     guarded_minuend(prog, res)
     best_rules(prog, res)
     best_buffer_capacity(prog, res)
+    worker_scratch_is_private(prog, res)
     worker_globals(prog, res)
     alloc_rules(prog, res)
     clock_taint(prog, res)
